@@ -89,6 +89,17 @@ def is_enum(src, diagram, cid):
     return cid in _LEAVES[key]
 
 
+OP_START = re.compile(r'\{(\w+):"([^"]*)":Operation \{')
+
+
+def operation_blocks(text):
+    out = []
+    for m in OP_START.finditer(text):
+        nxt = CHILD_START.search(text, m.end())
+        out.append((m.start(), nxt.start() if nxt else len(text), m.group(2)))
+    return out
+
+
 ATTR_START = re.compile(r'\{(\w+):"([^"]*)":Attribute \{')
 CHILD_START = re.compile(r'\n\t\t\{\w+:"[^"]*":\w+ \{')
 
@@ -132,7 +143,57 @@ def mutate(r, src, dst, diagram, nops, only=None):
             # (removing only the package *shape* is not offered: the classes would still be owned by the package in the
             # model while the diagram no longer says so - types are then qualified by ownership, namespaces by the diagram)
             op = r.choice(["rename-class", "rename-class", "remove-class", "rename-package", "unpackage-class", "unpackage-class",
-                           "retype-attribute", "retype-attribute"]) if only is None else only
+                           "retype-attribute", "retype-attribute", "retype-return"]) if only is None else only
+            if op == "rename-package-after-class" and classes and packages:
+                # a package takes the name of one of its classes (+ 's') that a class of another package refers to
+                cur = con.cursor()
+                owner = {}
+                blobs = {}
+                for c in classes:
+                    cur.execute("SELECT PARENT_ID, DEFINITION FROM MODEL_ELEMENT WHERE ID=?", (c[1],))
+                    owner[c[1]], blobs[c[1]] = cur.fetchone()
+                cands = [c for c in classes if owner[c[1]] and any(c[1].encode() in blobs[d[1]] for d in classes if owner[d[1]] != owner[c[1]])]
+                if cands:
+                    c = r.choice(cands)
+                    pk = [p_ for p_ in packages if p_[1] == owner[c[1]]]
+                    new = c[3] + r.choice(["s", "s", "Types"])
+                    if pk and not any(p_[3] == new for p_ in packages) and rename(con, pk[0][1], pk[0][3], new):
+                        applied.append(["rename-package", pk[0][3], new])
+                continue
+            if op == "retype-return" and classes:
+                # the return type of an operation becomes a pointer / reference to - or a value of - another type of the diagram
+                cur = con.cursor()
+                comps, usable = leaf_types(src, diagram)
+                present = {e[1] for e in classes}
+                holders = []
+                for e in classes:
+                    cur.execute("SELECT DEFINITION FROM MODEL_ELEMENT WHERE ID=?", (e[1],))
+                    text = cur.fetchone()[0].decode("utf-8")
+                    for (a0, a1, oname) in operation_blocks(text):
+                        blk = text[a0:a1]
+                        mt = re.search(r"\n\t\t\treturnType=(<[\w.:]+>);", blk)
+                        if mt and oname != e[3]:
+                            holders.append((e, text, a0, a1, mt, oname))
+                if holders:
+                    hid = r.choice(sorted({h[0][1] for h in holders}))
+                    e, text, a0, a1, mt, oname = r.choice([h for h in holders if h[0][1] == hid])
+                    modifier = r.choice(["*", "*", "&", None])
+                    if modifier is None:
+                        cands = [x for x in sorted(usable) if x in present and x != e[1] and comps.get(x) != comps.get(e[1])]
+                    else:
+                        cands = [x for x in sorted(present) if x != e[1]]
+                    if cands:
+                        target = r.choice(cands)
+                        blk = text[a0:a1]
+                        blk = blk[:mt.start(1)] + reference_to(con, target) + blk[mt.end(1):]
+                        blk = re.sub(r'\n\t\t\ttypeModifier="[^"]*";', "", blk)
+                        if modifier:
+                            blk = blk.replace("\n\t\t\treturnType=", '\n\t\t\ttypeModifier="%s";\n\t\t\treturnType=' % modifier, 1)
+                        text = text[:a0] + blk + text[a1:]
+                        cur.execute("UPDATE MODEL_ELEMENT SET DEFINITION=? WHERE ID=?", (text.encode("utf-8"), e[1]))
+                        tname = [c[3] for c in classes if c[1] == target][0]
+                        applied.append([op, e[3] + "." + oname + "()", tname + (modifier or "")])
+                continue
             enum_ref = op == "retype-reference-to-enum"
             if enum_ref:
                 op = "retype-attribute"
@@ -216,6 +277,13 @@ def mutate(r, src, dst, diagram, nops, only=None):
                             text = text[:m.start()] + new_list + text[m.end():]
                             cur.execute("UPDATE MODEL_ELEMENT SET DEFINITION=? WHERE ID=?", (text.encode("utf-8"), parent))
                             cur.execute("UPDATE MODEL_ELEMENT SET PARENT_ID=NULL WHERE ID=?", (e[1],))
+                            # as the tool does: references spell an element through its owner chain, so every
+                            # `<...:package:class>` elsewhere becomes `<class>`
+                            cur.execute("SELECT ID, DEFINITION FROM MODEL_ELEMENT")
+                            pat = re.compile(rb"<(?:[\w.]+:)+" + re.escape(e[1].encode()) + rb">")
+                            for mid, blob_ in cur.fetchall():
+                                if blob_ and pat.search(blob_):
+                                    con.execute("UPDATE MODEL_ELEMENT SET DEFINITION=? WHERE ID=?", (pat.sub(b"<" + e[1].encode() + b">", blob_), mid))
                             applied.append([op, e[3]])
             elif op == "remove-package" and len(packages) > 1:
                 # the package shape leaves the diagram: its classes are drawn outside any package
@@ -225,6 +293,15 @@ def mutate(r, src, dst, diagram, nops, only=None):
             elif op == "rename-package" and packages:
                 e = r.choice(packages)
                 new = "X" + r.choice(WORDS) + r.choice(WORDS + [""])
+                others = [p_[3] for p_ in packages if p_[1] != e[1] and len(p_[3]) > 2]
+                if others and r.random() < 0.35:
+                    # package names that end (or begin) alike: one name is the tail / the head of another
+                    o = r.choice(others)
+                    new = r.choice([o[1:], o[2:], "X" + o, o + "X", o[:-1]])
+                elif classes and r.random() < 0.35:
+                    # a package named after one of the diagram's classes (Shapes / Shape, Timers / Timer)
+                    cn = r.choice(classes)[3]
+                    new = r.choice([cn + "s", cn + "Types", "X" + cn])
                 if any(p[3] == new for p in packages):
                     continue
                 if rename(con, e[1], e[3], new):
